@@ -6,6 +6,7 @@ import Mathlib.Analysis.Calculus.Deriv.Add
 import Mathlib.Analysis.Calculus.Deriv.Mul
 import Mathlib.Analysis.Calculus.Deriv.Pow
 import Mathlib.Analysis.Calculus.Deriv.Comp
+import Mathlib.Analysis.Calculus.Deriv.Inv
 import Mathlib.Tactic.Ring
 import Mathlib.Tactic.Linarith
 import Mathlib.Tactic.NormNum
@@ -621,5 +622,1016 @@ theorem blk_upper (hmu : 0 < mu) (hD0 : 0 ≤ D0) (hrel : ∀ i, D i * (mu * mu)
 
 end block2
 
+
+section block3
+variable {n : ℕ} {D0 mu : ℝ} {D w : Fin n → ℝ}
+
+theorem pp_self (w z : Fin n → ℝ) : pp w z z = SS w z := by
+  unfold pp SS; exact Finset.sum_congr rfl fun i _ => by ring
+
+theorem dist_sq_eq (w x z : Fin n → ℝ) :
+    SS w x - 2 * pp w x z + SS w z = ∑ i, ((x i - z i) * w i) ^ 2 := by
+  unfold SS pp
+  rw [Finset.mul_sum, ← Finset.sum_sub_distrib, ← Finset.sum_add_distrib]
+  exact Finset.sum_congr rfl fun i _ => by ring
+
+/-- `−force_normal` is the derivative of the block cost in the normal residual, at every point -/
+theorem blk_hasDerivAt_normal (hmu : 0 < mu) (hD0 : 0 ≤ D0)
+    (hrel : ∀ i, D i * (mu * mu) = D0 * (w i * w i)) (j0 : ℝ) (jar : Fin n → ℝ) :
+    HasDerivAt (fun t => blkCost D0 mu D w t jar) (-(blkForceN D0 mu w j0 jar)) j0 := by
+  refine hasDerivAt_of_sandwich (L := 1 / 2 * ellDm D0 mu * (1 + mu * mu) * (mu * mu)) ?_ ?_
+  · intro t
+    have := blk_lower hmu hD0 hrel t jar j0 jar
+    simpa using this
+  · intro t
+    have := blk_upper hmu hD0 hrel t jar j0 jar
+    rw [pp_self] at this
+    simp only [sub_self, mul_zero, Finset.sum_const_zero, add_zero] at this
+    calc blkCost D0 mu D w t jar ≤ _ := this
+      _ = _ := by ring
+
+/-- `−force_i` is the derivative of the block cost in the i-th tangential residual, at every point -/
+theorem blk_hasDerivAt_tangent (hmu : 0 < mu) (hD0 : 0 ≤ D0)
+    (hrel : ∀ i, D i * (mu * mu) = D0 * (w i * w i)) (j0 : ℝ) (jar : Fin n → ℝ) (i : Fin n) :
+    HasDerivAt (fun t => blkCost D0 mu D w j0 (Function.update jar i t))
+      (-(blkForceT D0 mu D w j0 jar i)) (jar i) := by
+  have hsum : ∀ t (f : Fin n → ℝ),
+      ∑ k, f k * (Function.update jar i t k - jar k) = f i * (t - jar i) := by
+    intro t f
+    rw [Finset.sum_eq_single i]
+    · simp
+    · intro k _ hk; simp [Function.update_of_ne hk]
+    · intro h; exact absurd (Finset.mem_univ i) h
+  have hsq : ∀ t, ∑ k, ((Function.update jar i t k - jar k) * w k) ^ 2 = ((t - jar i) * w i) ^ 2 := by
+    intro t
+    rw [Finset.sum_eq_single i]
+    · simp
+    · intro k _ hk; simp [Function.update_of_ne hk]
+    · intro h; exact absurd (Finset.mem_univ i) h
+  have hself : Function.update jar i (jar i) = jar := Function.update_eq_self i jar
+  refine hasDerivAt_of_sandwich (L := 1 / 2 * ellDm D0 mu * (1 + mu * mu) * (w i * w i)) ?_ ?_
+  all_goals simp only [hself]
+  · intro t
+    have := blk_lower hmu hD0 hrel j0 (Function.update jar i t) j0 jar
+    rw [hsum] at this
+    simpa using this
+  · intro t
+    have := blk_upper hmu hD0 hrel j0 (Function.update jar i t) j0 jar
+    rw [hsum, dist_sq_eq, hsq] at this
+    simp only [sub_self, mul_zero, add_zero] at this ⊢
+    calc blkCost D0 mu D w j0 (Function.update jar i t) ≤ _ := this
+      _ = _ := by ring
+
+/-- the block cost is convex in the whole residual vector `(jar0, jar)` -/
+theorem blk_convex (hmu : 0 < mu) (hD0 : 0 ≤ D0)
+    (hrel : ∀ i, D i * (mu * mu) = D0 * (w i * w i)) :
+    ConvexOn ℝ Set.univ (fun v : ℝ × (Fin n → ℝ) => blkCost D0 mu D w v.1 v.2) := by
+  refine ⟨convex_univ, fun x _ y _ a b ha hb hab => ?_⟩
+  set z := a • x + b • y with hz
+  have h1 := blk_lower hmu hD0 hrel x.1 x.2 z.1 z.2
+  have h2 := blk_lower hmu hD0 hrel y.1 y.2 z.1 z.2
+  have hb' : b = 1 - a := by linarith
+  have e1 : a * (x.1 - z.1) + b * (y.1 - z.1) = 0 := by
+    simp only [hz, Prod.fst_add, Prod.smul_fst, smul_eq_mul]; subst hb'; ring
+  have e2 : ∀ i, a * (x.2 i - z.2 i) + b * (y.2 i - z.2 i) = 0 := by
+    intro i
+    simp only [hz, Prod.snd_add, Prod.smul_snd, Pi.add_apply, Pi.smul_apply, smul_eq_mul]; subst hb'; ring
+  have e3 : a * ∑ i, (-(blkForceT D0 mu D w z.1 z.2 i)) * (x.2 i - z.2 i) +
+      b * ∑ i, (-(blkForceT D0 mu D w z.1 z.2 i)) * (y.2 i - z.2 i) = 0 := by
+    rw [Finset.mul_sum, Finset.mul_sum, ← Finset.sum_add_distrib]
+    refine Finset.sum_eq_zero fun i _ => ?_
+    have := e2 i
+    calc _ = (-(blkForceT D0 mu D w z.1 z.2 i)) * (a * (x.2 i - z.2 i) + b * (y.2 i - z.2 i)) := by ring
+      _ = 0 := by rw [this, mul_zero]
+  simp only [smul_eq_mul]
+  have h1' := mul_le_mul_of_nonneg_left h1 ha
+  have h2' := mul_le_mul_of_nonneg_left h2 hb
+  have e4 : (-(blkForceN D0 mu w z.1 z.2)) * (a * (x.1 - z.1) + b * (y.1 - z.1)) = 0 := by
+    rw [e1, mul_zero]
+  have e5 : a * blkCost D0 mu D w z.1 z.2 + b * blkCost D0 mu D w z.1 z.2 = blkCost D0 mu D w z.1 z.2 := by
+    rw [← add_mul, hab, one_mul]
+  linarith
+
+end block3
+section block4
+variable {n : ℕ} {D0 mu : ℝ} {D w : Fin n → ℝ}
+
+theorem blkForceN_nonneg (hmu : 0 < mu) (hD0 : 0 ≤ D0) (j0 : ℝ) (jar : Fin n → ℝ) :
+    0 ≤ blkForceN D0 mu w j0 jar := by
+  rw [blkForceN_eq hmu]
+  have hDm := ellDm_nonneg hD0 mu
+  have ha := q1'_nonpos (j0 * mu - mu * TT w jar)
+  have hb := q1'_nonpos (mu * (j0 * mu) + TT w jar)
+  have : ellDm D0 mu * mu * (q1' (j0 * mu - mu * TT w jar) + mu * q1' (mu * (j0 * mu) + TT w jar)) ≤ 0 := by
+    apply mul_nonpos_of_nonneg_of_nonpos (mul_nonneg hDm hmu.le)
+    nlinarith
+  linarith
+
+/-- friction-weighted tangential norm of the returned force -/
+theorem blk_tangent_norm (hmu : 0 < mu) (hD0 : 0 ≤ D0) (hw : ∀ i, 0 < w i)
+    (hrel : ∀ i, D i * (mu * mu) = D0 * (w i * w i)) (j0 : ℝ) (jar : Fin n → ℝ) :
+    Real.sqrt (∑ i, (blkForceT D0 mu D w j0 jar i / w i) ^ 2) =
+      ellDm D0 mu * (-mu * q1' (j0 * mu - mu * TT w jar) + q1' (mu * (j0 * mu) + TT w jar)) := by
+  have hDm := ellDm_nonneg hD0 mu
+  have hb0 := blkBeta_nonneg (w := w) hmu j0 jar
+  have hG := blkBeta_mul_T (w := w) hmu j0 jar
+  have hm : 0 < 1 + mu * mu := by positivity
+  set c := ellDm D0 mu * (1 + mu * mu) * blkBeta mu w j0 jar with hc
+  have hc0 : 0 ≤ c := mul_nonneg (mul_nonneg hDm hm.le) hb0
+  have e : ∑ i, (blkForceT D0 mu D w j0 jar i / w i) ^ 2 = (c * TT w jar) ^ 2 := by
+    rw [mul_pow, sq (TT w jar), TT_sq]
+    unfold SS
+    rw [Finset.mul_sum]
+    refine Finset.sum_congr rfl fun i _ => ?_
+    rw [blkForceT_eq hmu hrel]
+    have := (hw i).ne'
+    field_simp
+    rw [hc]; ring
+  rw [e, Real.sqrt_sq (mul_nonneg hc0 (TT_nonneg w jar)), hc]
+  linear_combination (ellDm D0 mu) * hG
+
+theorem blk_in_cone (hmu : 0 < mu) (hD0 : 0 ≤ D0) (hw : ∀ i, 0 < w i)
+    (hrel : ∀ i, D i * (mu * mu) = D0 * (w i * w i)) (j0 : ℝ) (jar : Fin n → ℝ) :
+    Real.sqrt (∑ i, (blkForceT D0 mu D w j0 jar i / w i) ^ 2) ≤ blkForceN D0 mu w j0 jar := by
+  rw [blk_tangent_norm hmu hD0 hw hrel, blkForceN_eq hmu]
+  have hDm := ellDm_nonneg hD0 mu
+  have hb := q1'_nonpos (mu * (j0 * mu) + TT w jar)
+  have : ellDm D0 mu * ((1 + mu * mu) * q1' (mu * (j0 * mu) + TT w jar)) ≤ 0 :=
+    mul_nonpos_of_nonneg_of_nonpos hDm (mul_nonpos_of_nonneg_of_nonpos (by positivity) hb)
+  nlinarith
+
+/-- outside the bottom zone the force is on the cone surface -/
+theorem blk_on_cone_surface (hmu : 0 < mu) (hD0 : 0 ≤ D0) (hw : ∀ i, 0 < w i)
+    (hrel : ∀ i, D i * (mu * mu) = D0 * (w i * w i)) (j0 : ℝ) (jar : Fin n → ℝ)
+    (hz : blkZone mu w j0 jar ≠ Zone.bottom) :
+    Real.sqrt (∑ i, (blkForceT D0 mu D w j0 jar i / w i) ^ 2) = blkForceN D0 mu w j0 jar := by
+  rw [blk_tangent_norm hmu hD0 hw hrel, blkForceN_eq hmu]
+  rcases blkZone_cases (w := w) hmu j0 jar with ⟨h, h1, h2⟩ | ⟨h, h1, h2⟩ | ⟨h, h1, h2⟩
+  · rw [q1'_of_nonneg h2]; ring
+  · exact absurd h hz
+  · rw [q1'_of_nonneg h2.le]; ring
+
+end block4
+section block5
+variable {n : ℕ} {D0 mu : ℝ} {D w : Fin n → ℝ}
+
+/-- the part of `Σ U²` that does not involve coordinate `j` -/
+def SSrest (w jar : Fin n → ℝ) (j : Fin n) : ℝ := ∑ k ∈ Finset.univ.erase j, (jar k * w k) ^ 2
+
+theorem SS_update (w jar : Fin n → ℝ) (j : Fin n) (t : ℝ) :
+    SS w (Function.update jar j t) = (t * w j) ^ 2 + SSrest w jar j := by
+  unfold SS SSrest
+  rw [← Finset.add_sum_erase _ _ (Finset.mem_univ j)]
+  congr 1
+  · simp
+  · refine Finset.sum_congr rfl fun k hk => ?_
+    rw [Function.update_of_ne (Finset.ne_of_mem_erase hk)]
+
+theorem SS_split (w jar : Fin n → ℝ) (j : Fin n) :
+    SS w jar = (jar j * w j) ^ 2 + SSrest w jar j := by
+  have := SS_update w jar j (jar j)
+  rwa [Function.update_eq_self] at this
+
+theorem TT_update_hasDerivAt (w jar : Fin n → ℝ) (j : Fin n) (hT : TT w jar ≠ 0) :
+    HasDerivAt (fun t => TT w (Function.update jar j t)) ((jar j * w j) * w j / TT w jar) (jar j) := by
+  have h1 : HasDerivAt (fun t : ℝ => (t * w j) ^ 2 + SSrest w jar j) (2 * (jar j * w j) * w j) (jar j) := by
+    have := ((hasDerivAt_id (jar j)).mul_const (w j)).pow 2
+    simpa [mul_comm, mul_left_comm, mul_assoc] using this.add_const (SSrest w jar j)
+  have h0 : (fun t => TT w (Function.update jar j t)) = fun t => Real.sqrt ((t * w j) ^ 2 + SSrest w jar j) := by
+    funext t; unfold TT; rw [SS_update]
+  rw [h0]
+  have hne : (jar j * w j) ^ 2 + SSrest w jar j ≠ 0 := by
+    rw [← SS_split]
+    intro h; apply hT; unfold TT; rw [h, Real.sqrt_zero]
+  have h2 := h1.sqrt hne
+  convert h2 using 1
+  rw [← SS_split]
+  unfold TT
+  field_simp
+
+theorem TT_update_continuous (w jar : Fin n → ℝ) (j : Fin n) :
+    Continuous (fun t => TT w (Function.update jar j t)) := by
+  have h0 : (fun t => TT w (Function.update jar j t)) = fun t => Real.sqrt ((t * w j) ^ 2 + SSrest w jar j) := by
+    funext t; unfold TT; rw [SS_update]
+  rw [h0]
+  exact Real.continuous_sqrt.comp (by continuity)
+
+
+theorem hessScl1_real (mu T : ℝ) : hessScl1 mu T = -mu / T := by
+  unfold hessScl1; simp only [r_div, r_neg]
+theorem hessScl2_real (mu N T : ℝ) : hessScl2 mu N T = mu * N / (T * T * T) := by
+  unfold hessScl2; simp only [r_div, r_mul]
+theorem hessScl3_real (mu N T : ℝ) : hessScl3 mu N T = mu * mu - mu * N / T := by
+  unfold hessScl3; simp only [r_div, r_mul, r_sub]
+
+theorem hessEntry_nn (Dm mu s1 s2 s3 : ℝ) :
+    hessEntry Dm mu s1 s2 s3 none none = 1 * (Dm * mu * mu) := by
+  unfold hessEntry; simp only [r_mul, one_real]
+theorem hessEntry_nt (Dm mu s1 s2 s3 : ℝ) (j : ℕ) (u w : ℝ) :
+    hessEntry Dm mu s1 s2 s3 none (some (j, u, w)) = s1 * u * (Dm * mu * w) := by
+  unfold hessEntry; simp only [r_mul]
+theorem hessEntry_tn (Dm mu s1 s2 s3 : ℝ) (j : ℕ) (u w : ℝ) :
+    hessEntry Dm mu s1 s2 s3 (some (j, u, w)) none = s1 * u * (Dm * mu * w) := by
+  unfold hessEntry; simp only [r_mul]
+theorem hessEntry_tt (Dm mu s1 s2 s3 : ℝ) (k j : ℕ) (uk wk uj wj : ℝ) :
+    hessEntry Dm mu s1 s2 s3 (some (k, uk, wk)) (some (j, uj, wj)) =
+      if k < j then s2 * uj * uk * (Dm * wk * wj)
+      else if j < k then s2 * uk * uj * (Dm * wj * wk)
+      else (s2 * uj * uk + s3) * (Dm * wk * wj) := by
+  unfold hessEntry; simp only [r_mul, r_add]
+
+theorem middle_pos (hmu : 0 < mu) {j0 : ℝ} {jar : Fin n → ℝ}
+    (hz : blkZone mu w j0 jar = Zone.middle) :
+    j0 * mu - mu * TT w jar < 0 ∧ 0 < mu * (j0 * mu) + TT w jar ∧ 0 < TT w jar := by
+  have hT := TT_nonneg w jar
+  rcases blkZone_cases (w := w) hmu j0 jar with ⟨h, h1, h2⟩ | ⟨h, h1, h2⟩ | ⟨h, h1, h2⟩
+  · rw [hz] at h; exact absurd h (by decide)
+  · rw [hz] at h; exact absurd h (by decide)
+  · refine ⟨h1, h2, ?_⟩
+    rcases hT.eq_or_lt with h0 | h0
+    · exfalso; rw [← h0] at h1 h2; nlinarith
+    · exact h0
+
+theorem middle_of_lt (hmu : 0 < mu) {j0 : ℝ} {jar : Fin n → ℝ}
+    (h1 : j0 * mu - mu * TT w jar < 0) (h2 : 0 < mu * (j0 * mu) + TT w jar) :
+    blkZone mu w j0 jar = Zone.middle := by
+  rw [blkZone_eq hmu, if_neg (not_le.mpr h1), if_neg (not_le.mpr h2)]
+
+/-- the middle zone is open along tangential coordinate lines -/
+theorem middle_eventually_tangent (hmu : 0 < mu) {j0 : ℝ} {jar : Fin n → ℝ}
+    (hz : blkZone mu w j0 jar = Zone.middle) (j : Fin n) :
+    ∀ᶠ t in 𝓝 (jar j), blkZone mu w j0 (Function.update jar j t) = Zone.middle := by
+  obtain ⟨h1, h2, _⟩ := middle_pos hmu hz
+  have hc := TT_update_continuous w jar j
+  have c1 : ContinuousAt (fun t => j0 * mu - mu * TT w (Function.update jar j t)) (jar j) :=
+    (continuous_const.sub (continuous_const.mul hc)).continuousAt
+  have c2 : ContinuousAt (fun t => mu * (j0 * mu) + TT w (Function.update jar j t)) (jar j) :=
+    (continuous_const.add hc).continuousAt
+  have e1 := c1.eventually_lt (g := fun _ => (0 : ℝ)) continuousAt_const
+    (by show j0 * mu - mu * TT w (Function.update jar j (jar j)) < 0
+        rw [Function.update_eq_self]; exact h1)
+  have e2 := (continuousAt_const (y := (0 : ℝ))).eventually_lt c2
+    (by show 0 < mu * (j0 * mu) + TT w (Function.update jar j (jar j))
+        rw [Function.update_eq_self]; exact h2)
+  filter_upwards [e1, e2] with t ht1 ht2
+  exact middle_of_lt hmu ht1 ht2
+
+/-- the middle zone is open along the normal coordinate line -/
+theorem middle_eventually_normal (hmu : 0 < mu) {j0 : ℝ} {jar : Fin n → ℝ}
+    (hz : blkZone mu w j0 jar = Zone.middle) :
+    ∀ᶠ t in 𝓝 j0, blkZone mu w t jar = Zone.middle := by
+  obtain ⟨h1, h2, _⟩ := middle_pos hmu hz
+  have c1 : ContinuousAt (fun t : ℝ => t * mu - mu * TT w jar) j0 := by fun_prop
+  have c2 : ContinuousAt (fun t : ℝ => mu * (t * mu) + TT w jar) j0 := by fun_prop
+  have e1 := c1.eventually_lt (g := fun _ => (0 : ℝ)) continuousAt_const h1
+  have e2 := (continuousAt_const (y := (0 : ℝ))).eventually_lt c2 h2
+  filter_upwards [e1, e2] with t ht1 ht2
+  exact middle_of_lt hmu ht1 ht2
+
+theorem blkForceN_middle {j0 : ℝ} {jar : Fin n → ℝ} (hz : blkZone mu w j0 jar = Zone.middle) :
+    blkForceN D0 mu w j0 jar = -ellDm D0 mu * (j0 * mu - mu * TT w jar) * mu := by
+  unfold blkForceN; rw [hz]
+
+theorem blkForceT_middle {j0 : ℝ} {jar : Fin n → ℝ} (hz : blkZone mu w j0 jar = Zone.middle)
+    (k : Fin n) :
+    blkForceT D0 mu D w j0 jar k =
+      -(-ellDm D0 mu * (j0 * mu - mu * TT w jar) * mu) / TT w jar * (jar k * w k) * w k := by
+  unfold blkForceT; rw [hz]; simp only []; rw [blkForceN_middle hz]
+
+
+/-- index object of the normal row / of the k-th tangential row, as `coneHess` builds them -/
+def hIdxT (w jar : Fin n → ℝ) (k : Fin n) : HIdx ℝ := some (k.val, jar k * w k, w k)
+
+/-- the Hessian entry the code writes, at the block residual `(j0, jar)` -/
+noncomputable def blkHess (D0 mu : ℝ) (w : Fin n → ℝ) (j0 : ℝ) (jar : Fin n → ℝ) (a b : HIdx ℝ) : ℝ :=
+  hessEntry (ellDm D0 mu) mu (hessScl1 mu (TT w jar)) (hessScl2 mu (j0 * mu) (TT w jar))
+    (hessScl3 mu (j0 * mu) (TT w jar)) a b
+
+theorem hess_nn (hmu : 0 < mu) {j0 : ℝ} {jar : Fin n → ℝ}
+    (hz : blkZone mu w j0 jar = Zone.middle) :
+    HasDerivAt (fun t => -(blkForceN D0 mu w t jar)) (blkHess D0 mu w j0 jar none none) j0 := by
+  have hev : (fun t => -(blkForceN D0 mu w t jar)) =ᶠ[𝓝 j0]
+      fun t => -(-ellDm D0 mu * (t * mu - mu * TT w jar) * mu) := by
+    filter_upwards [middle_eventually_normal hmu hz] with t ht
+    rw [blkForceN_middle ht]
+  have h := ((((hasDerivAt_id' j0).mul_const mu).sub_const (mu * TT w jar)).const_mul
+    (-ellDm D0 mu)).mul_const mu
+  refine (h.fun_neg.congr_deriv ?_).congr_of_eventuallyEq hev
+  unfold blkHess; rw [hessEntry_nn]; ring
+
+theorem hess_tn (hmu : 0 < mu) {j0 : ℝ} {jar : Fin n → ℝ}
+    (hz : blkZone mu w j0 jar = Zone.middle) (k : Fin n) :
+    HasDerivAt (fun t => -(blkForceT D0 mu D w t jar k))
+      (blkHess D0 mu w j0 jar (hIdxT w jar k) none) j0 := by
+  obtain ⟨_, _, hT⟩ := middle_pos hmu hz
+  have hev : (fun t => -(blkForceT D0 mu D w t jar k)) =ᶠ[𝓝 j0]
+      fun t => -(-(-ellDm D0 mu * (t * mu - mu * TT w jar) * mu) / TT w jar * (jar k * w k) * w k) := by
+    filter_upwards [middle_eventually_normal hmu hz] with t ht
+    rw [blkForceT_middle ht]
+  have h := ((((((hasDerivAt_id' j0).mul_const mu).sub_const (mu * TT w jar)).const_mul
+    (-ellDm D0 mu)).mul_const mu).fun_neg.div_const (TT w jar)).mul_const (jar k * w k) |>.mul_const (w k)
+  refine (h.fun_neg.congr_deriv ?_).congr_of_eventuallyEq hev
+  unfold blkHess hIdxT; rw [hessEntry_tn, hessScl1_real]
+  have := hT.ne'
+  field_simp
+
+theorem hess_nt (hmu : 0 < mu) {j0 : ℝ} {jar : Fin n → ℝ}
+    (hz : blkZone mu w j0 jar = Zone.middle) (j : Fin n) :
+    HasDerivAt (fun t => -(blkForceN D0 mu w j0 (Function.update jar j t)))
+      (blkHess D0 mu w j0 jar none (hIdxT w jar j)) (jar j) := by
+  obtain ⟨_, _, hT⟩ := middle_pos hmu hz
+  have hev : (fun t => -(blkForceN D0 mu w j0 (Function.update jar j t))) =ᶠ[𝓝 (jar j)]
+      fun t => -(-ellDm D0 mu * (j0 * mu - mu * TT w (Function.update jar j t)) * mu) := by
+    filter_upwards [middle_eventually_tangent hmu hz j] with t ht
+    rw [blkForceN_middle ht]
+  have hd := TT_update_hasDerivAt w jar j hT.ne'
+  have h := (((hd.const_mul mu).const_sub (j0 * mu)).const_mul (-ellDm D0 mu)).mul_const mu
+  refine (h.fun_neg.congr_deriv ?_).congr_of_eventuallyEq hev
+  unfold blkHess hIdxT; rw [hessEntry_nt, hessScl1_real]
+  have := hT.ne'
+  field_simp
+
+theorem hess_tt (hmu : 0 < mu) {j0 : ℝ} {jar : Fin n → ℝ}
+    (hz : blkZone mu w j0 jar = Zone.middle) (k j : Fin n) :
+    HasDerivAt (fun t => -(blkForceT D0 mu D w j0 (Function.update jar j t) k))
+      (blkHess D0 mu w j0 jar (hIdxT w jar k) (hIdxT w jar j)) (jar j) := by
+  obtain ⟨_, _, hT⟩ := middle_pos hmu hz
+  have hne := hT.ne'
+  have hev : (fun t => -(blkForceT D0 mu D w j0 (Function.update jar j t) k)) =ᶠ[𝓝 (jar j)]
+      fun t => -(-(-ellDm D0 mu * (j0 * mu - mu * TT w (Function.update jar j t)) * mu) /
+        TT w (Function.update jar j t) * (Function.update jar j t k * w k) * w k) := by
+    filter_upwards [middle_eventually_tangent hmu hz j] with t ht
+    rw [blkForceT_middle ht]
+  have hd := TT_update_hasDerivAt w jar j hne
+  have hself : Function.update jar j (jar j) = jar := Function.update_eq_self j jar
+  have hnum := ((((hd.const_mul mu).const_sub (j0 * mu)).const_mul (-ellDm D0 mu)).mul_const mu).fun_neg
+  have hTat : TT w (Function.update jar j (jar j)) ≠ 0 := by rw [hself]; exact hne
+  have hq := hnum.fun_div hd hTat
+  unfold blkHess hIdxT
+  rw [hessEntry_tt, hessScl2_real, hessScl3_real]
+  by_cases hkj : k = j
+  · subst hkj
+    have hu : HasDerivAt (fun t => Function.update jar k t k * w k) (1 * w k) (jar k) := by
+      have := (hasDerivAt_id' (jar k)).mul_const (w k)
+      refine this.congr_of_eventuallyEq (Eventually.of_forall fun t => ?_)
+      simp
+    have h := ((hq.fun_mul hu).mul_const (w k)).fun_neg
+    refine (h.congr_deriv ?_).congr_of_eventuallyEq hev
+    simp only [lt_irrefl, if_false, hself, Function.update_self]
+    field_simp
+    ring
+  · have hu : HasDerivAt (fun t => Function.update jar j t k * w k) 0 (jar j) := by
+      have : (fun t => Function.update jar j t k * w k) = fun _ => jar k * w k := by
+        funext t; rw [Function.update_of_ne hkj]
+      rw [this]; exact hasDerivAt_const _ _
+    have h := ((hq.fun_mul hu).mul_const (w k)).fun_neg
+    refine (h.congr_deriv ?_).congr_of_eventuallyEq hev
+    simp only [hself, Function.update_of_ne hkj]
+    have hv : k.val ≠ j.val := fun h => hkj (Fin.ext h)
+    rcases lt_or_gt_of_ne hv with hlt | hgt
+    · rw [if_pos hlt]; field_simp; ring
+    · rw [if_neg (not_lt.mpr hgt.le), if_pos hgt]; field_simp; ring
+
+end block5
+
+
+/-! ### scalar rows: closed forms, derivative, convexity, C¹ -/
+theorem huber1'_eq_clamp {b : ℝ} (hb : 0 ≤ b) (x : ℝ) : huber1' b x = max (-b) (min b x) := by
+  unfold huber1'
+  split_ifs with h1 h2
+  · rw [min_eq_right (by linarith), max_eq_left h1]
+  · rw [min_eq_left h2, max_eq_right (by linarith)]
+  · push Not at h1 h2
+    rw [min_eq_right h2.le, max_eq_right h1.le]
+
+theorem huber1'_abs_le {b : ℝ} (hb : 0 ≤ b) (x : ℝ) : |huber1' b x| ≤ b := by
+  unfold huber1'
+  split_ifs with h1 h2
+  · rw [abs_neg, abs_of_nonneg hb]
+  · rw [abs_of_nonneg hb]
+  · push Not at h1 h2
+    rw [abs_le]; constructor <;> linarith
+
+theorem fricRow_cost_eq {D R fl : ℝ} (hDR : D * R = 1) (x : ℝ) :
+    (fricRow D R fl x).cost = D * huber1 (R * fl) x := by
+  have e1 : D * (R * fl) = fl := by rw [← mul_assoc, hDR, one_mul]
+  rw [fricRow_cost]; unfold huber1
+  simp only [neg_mul]
+  by_cases h1 : x ≤ -(R * fl)
+  · rw [if_pos h1, if_pos h1]; linear_combination (1 / 2 * R * fl + x) * e1
+  · rw [if_neg h1, if_neg h1]
+    by_cases h2 : R * fl ≤ x
+    · rw [if_pos h2, if_pos h2]; linear_combination (1 / 2 * R * fl - x) * e1
+    · rw [if_neg h2, if_neg h2]; ring
+
+theorem fricRow_force_eq {D R fl : ℝ} (hDR : D * R = 1) (x : ℝ) :
+    (fricRow D R fl x).force = -(D * huber1' (R * fl) x) := by
+  have e1 : D * (R * fl) = fl := by rw [← mul_assoc, hDR, one_mul]
+  rw [fricRow_force]; unfold huber1'
+  simp only [neg_mul]
+  by_cases h1 : x ≤ -(R * fl)
+  · rw [if_pos h1, if_pos h1]; linear_combination (-1 : ℝ) * e1
+  · rw [if_neg h1, if_neg h1]
+    by_cases h2 : R * fl ≤ x
+    · rw [if_pos h2, if_pos h2]; linear_combination e1
+    · rw [if_neg h2, if_neg h2]
+
+theorem nonnegRow_cost_eq (D x : ℝ) : (nonnegRow D x).cost = D * q1 x := by
+  rw [nonnegRow_cost]; unfold q1; split_ifs <;> ring
+theorem nonnegRow_force_eq (D x : ℝ) : (nonnegRow D x).force = -(D * q1' x) := by
+  rw [nonnegRow_force]; unfold q1'; split_ifs <;> ring
+
+/-- a scaled function inherits the sandwich -/
+theorem hasDerivAt_scaled {c1 g1 : ℝ → ℝ} {D : ℝ} (hD : 0 ≤ D)
+    (hlo : ∀ x z, c1 z + g1 z * (x - z) ≤ c1 x)
+    (hup : ∀ x z, c1 x ≤ c1 z + g1 z * (x - z) + 1 / 2 * (x - z) ^ 2) (x0 : ℝ) :
+    HasDerivAt (fun x => D * c1 x) (D * g1 x0) x0 := by
+  refine hasDerivAt_of_sandwich (L := D / 2) (fun x => ?_) (fun x => ?_)
+  · have := mul_le_mul_of_nonneg_left (hlo x x0) hD; nlinarith
+  · have := mul_le_mul_of_nonneg_left (hup x x0) hD; nlinarith
+
+theorem convexOn_scaled {c1 g1 : ℝ → ℝ} {D : ℝ} (hD : 0 ≤ D)
+    (hlo : ∀ x z, c1 z + g1 z * (x - z) ≤ c1 x) : ConvexOn ℝ Set.univ (fun x => D * c1 x) := by
+  refine convexOn_of_subgradient (g := fun x => D * g1 x) (fun x y => ?_)
+  have := mul_le_mul_of_nonneg_left (hlo x y) hD; nlinarith
+
+theorem R_pos_of {D R : ℝ} (hD : 0 ≤ D) (hDR : D * R = 1) : 0 < R := by
+  by_contra h
+  have : R ≤ 0 := not_lt.mp h
+  nlinarith
+
+
+/-! ### mju_mulMatTVec is the dense transpose product -/
+theorem addToScl_real (res row : List ℝ) (v : ℝ) :
+    addToScl res row v = List.zipWith (fun x m => x + m * v) res row := by
+  unfold addToScl; simp only [r_mul, r_add]
+
+/-- one step of the row loop of `mju_mulMatTVec` -/
+noncomputable def jtvStep (res : List ℝ) (p : List ℝ × ℝ) : List ℝ :=
+  if MjNum.beq p.2 (zero : ℝ) then res else addToScl res p.1 p.2
+
+theorem jtvStep_getElem? (res : List ℝ) (p : List ℝ × ℝ) (c : ℕ) (x : ℝ)
+    (hx : res[c]? = some x) (hp : c < p.1.length) :
+    (jtvStep res p)[c]? = some (x + p.1.getD c 0 * p.2) := by
+  unfold jtvStep
+  by_cases h0 : p.2 = 0
+  · have : MjNum.beq p.2 (zero : ℝ) = true := by simp [zero_real, h0]
+    rw [if_pos this, hx, h0, mul_zero, add_zero]
+  · have : MjNum.beq p.2 (zero : ℝ) = false := by simp [zero_real, h0]
+    rw [if_neg (by simp [this]), addToScl_real, List.getElem?_zipWith, hx]
+    have : p.1[c]? = some (p.1.getD c 0) := by
+      rw [List.getD_eq_getElem?_getD, List.getElem?_eq_getElem hp]; simp
+    rw [this]
+
+theorem jtv_fold_getElem? (l : List (List ℝ × ℝ)) (res : List ℝ) (c : ℕ) (x : ℝ)
+    (hx : res[c]? = some x) (hl : ∀ p ∈ l, c < p.1.length) :
+    (l.foldl jtvStep res)[c]? = some (x + (l.map (fun p => p.1.getD c 0 * p.2)).sum) := by
+  induction l generalizing res x with
+  | nil => simp [hx]
+  | cons p l ih =>
+    rw [List.foldl_cons, ih (jtvStep res p) (x + p.1.getD c 0 * p.2)
+      (jtvStep_getElem? res p c x hx (hl p (List.mem_cons_self)))
+      (fun q hq => hl q (List.mem_cons_of_mem _ hq))]
+    simp only [List.map_cons, List.sum_cons]
+    congr 1; ring
+
+/-- `mju_mulMatTVec(res, mat, vec, nr, nc)`: entry `c` of the result is `Σ_r mat[r][c]·vec[r]` -/
+theorem mulMatTVec_getElem? (nc : ℕ) (mat : List (List ℝ)) (vec : List ℝ) (c : ℕ) (hc : c < nc)
+    (hrows : ∀ row ∈ mat, row.length = nc) :
+    (mulMatTVec nc mat vec)[c]? =
+      some ((List.zipWith (fun (row : List ℝ) v => row.getD c 0 * v) mat vec).sum) := by
+  unfold mulMatTVec
+  have h0 : (List.replicate nc (zero : ℝ))[c]? = some 0 := by
+    rw [List.getElem?_replicate, if_pos hc, zero_real]
+  have := jtv_fold_getElem? (mat.zip vec) (List.replicate nc zero) c 0 h0
+    (fun p hp => by
+      have := (List.of_mem_zip hp).1
+      rw [hrows p.1 this]; exact hc)
+  rw [zero_add] at this
+  have e : (List.map (fun p : List ℝ × ℝ => p.1.getD c 0 * p.2) (mat.zip vec)) =
+      List.zipWith (fun (row : List ℝ) v => row.getD c 0 * v) mat vec := by
+    rw [List.zip, List.map_zipWith]
+  rw [← e]
+  exact this
+
+
+/-! ### mju_decodePyramid -/
+theorem foldl_add_real (l : List ℝ) (s : ℝ) :
+    l.foldl (fun a x => @HAdd.hAdd ℝ ℝ ℝ (@instHAdd ℝ (MjNum.toAdd)) a x) s = s + l.sum := by
+  induction l generalizing s with
+  | nil => simp
+  | cons t ts ih => simp only [List.foldl_cons, List.sum_cons, ih, r_add]; ring
+
+/-- tangential part of the decoded force -/
+noncomputable def decodeTangent (p mu : List ℝ) : List ℝ :=
+  List.zipWith (fun (e : ℝ × ℝ) m => (e.1 - e.2) * m) (pairs p) mu
+
+theorem decodePyramid_real (pyr mu : List ℝ) (dim : ℕ) (h2 : 2 ≤ dim)
+    (hp : 2 * (dim - 1) ≤ pyr.length) (hm : dim - 1 ≤ mu.length) :
+    decodePyramid pyr mu dim =
+      some ((pyr.take (2 * (dim - 1))).sum ::
+        decodeTangent (pyr.take (2 * (dim - 1))) (mu.take (dim - 1))) := by
+  unfold decodePyramid decodeTangent
+  rw [if_neg (by omega), if_neg (by omega), if_neg (by omega)]
+  simp only [foldl_add_real, zero_real, zero_add, r_sub, r_mul]
+
+theorem pairs_sum_le (p : List ℝ) (hp : ∀ e ∈ p, 0 ≤ e) :
+    ((pairs p).map (fun e => e.1 + e.2)).sum ≤ p.sum := by
+  fun_induction pairs p with
+  | case1 a b rest ih =>
+    simp only [List.map_cons, List.sum_cons]
+    have := ih (fun e he => hp e (by simp [he]))
+    linarith
+  | case2 l hl =>
+    simp only [List.map_nil, List.sum_nil]
+    exact List.sum_nonneg hp
+
+/-- friction pyramid: `Σ |f_i| / mu_i ≤` sum of the edge forces -/
+theorem decodeTangent_in_pyramid (p mu : List ℝ) (hp : ∀ e ∈ p, 0 ≤ e) (hmu : ∀ m ∈ mu, 0 < m) :
+    (List.zipWith (fun f m => |f| / m) (decodeTangent p mu) mu).sum ≤ p.sum := by
+  refine le_trans ?_ (pairs_sum_le p hp)
+  unfold decodeTangent
+  have hpp : ∀ e ∈ pairs p, 0 ≤ e.1 ∧ 0 ≤ e.2 := by
+    fun_induction pairs p with
+    | case1 a b rest ih =>
+      intro e he
+      rcases List.mem_cons.mp he with rfl | he
+      · exact ⟨hp _ (by simp), hp _ (by simp)⟩
+      · exact ih (fun e he => hp e (by simp [he])) e he
+    | case2 l hl => intro e he; simp at he
+  generalize pairs p = q at hpp
+  induction q generalizing mu with
+  | nil => simp
+  | cons e q ih =>
+    cases mu with
+    | nil => simp only [List.zipWith_nil_right, List.sum_nil, List.map_cons, List.sum_cons]
+             have h1 := hpp e (by simp)
+             have : 0 ≤ (q.map (fun e => e.1 + e.2)).sum :=
+               List.sum_nonneg (by
+                 intro x hx
+                 obtain ⟨y, hy, rfl⟩ := List.mem_map.mp hx
+                 have := hpp y (by simp [hy]); linarith)
+             linarith
+    | cons m mu =>
+      simp only [List.zipWith_cons_cons, List.sum_cons, List.map_cons]
+      have hm := hmu m (by simp)
+      have h1 := hpp e (by simp)
+      have := ih mu (fun m hm => hmu m (by simp [hm])) (fun e he => hpp e (by simp [he]))
+      have e1 : |(e.1 - e.2) * m| / m = |e.1 - e.2| := by
+        rw [abs_mul, abs_of_pos hm, mul_div_assoc, div_self hm.ne', mul_one]
+      have e2 : |e.1 - e.2| ≤ e.1 + e.2 := by
+        rw [abs_le]; constructor <;> linarith
+      rw [e1]; linarith
+
+/-! ### PGS cone projection -/
+/-- `Σ f_j² / mu_j²` -/
+noncomputable def ellS (ft mu : List ℝ) : ℝ := (List.zipWith (fun f m => f * f / (m * m)) ft mu).sum
+
+theorem ellS_nonneg (ft mu : List ℝ) : 0 ≤ ellS ft mu := by
+  unfold ellS
+  apply List.sum_nonneg
+  intro x hx
+  obtain ⟨i, hi, rfl⟩ := List.mem_iff_getElem.mp hx
+  simp only [List.getElem_zipWith]
+  exact div_nonneg (mul_self_nonneg _) (mul_self_nonneg _)
+
+theorem ellS_scale (ft mu : List ℝ) (c : ℝ) :
+    ellS (ft.map (fun f => f * c)) mu = c * c * ellS ft mu := by
+  unfold ellS
+  induction ft generalizing mu with
+  | nil => simp
+  | cons f ft ih =>
+    cases mu with
+    | nil => simp
+    | cons m mu =>
+      simp only [List.map_cons, List.zipWith_cons_cons, List.sum_cons, ih mu]
+      ring
+
+theorem ellS_zeros (ft mu : List ℝ) : ellS (ft.map (fun _ => (0 : ℝ))) mu = 0 := by
+  have := ellS_scale ft mu 0
+  simpa using this
+
+theorem projectEllipsoid_real (ft : List ℝ) (normal : ℝ) (mu : List ℝ) :
+    projectEllipsoid ft normal mu true =
+      if normal * normal < ellS ft mu then
+        ft.map (fun f => f * Real.sqrt (normal * normal / mjuMax minval (ellS ft mu)))
+      else ft := by
+  unfold projectEllipsoid ellS
+  simp only [foldl_add_real, zero_real, zero_add, r_mul, r_div, r_lt, real_sqrt, Bool.not_true,
+    Bool.false_or, decide_eq_true_eq]
+
+theorem mjuMax_real (a b : ℝ) : mjuMax a b = if b ≤ a then a else b := by
+  unfold mjuMax; simp only [r_le]
+
+theorem projectEllipsoid_in (ft : List ℝ) (normal : ℝ) (mu : List ℝ) :
+    ellS (projectEllipsoid ft normal mu true) mu ≤ normal * normal := by
+  rw [projectEllipsoid_real]
+  split_ifs with h
+  · rw [ellS_scale, Real.mul_self_sqrt]
+    · have hs := ellS_nonneg ft mu
+      have hn : 0 ≤ normal * normal := mul_self_nonneg _
+      have hpos : 0 < ellS ft mu := lt_of_le_of_lt hn h
+      have hmx : ellS ft mu ≤ mjuMax minval (ellS ft mu) := by
+        rw [mjuMax_real]; split_ifs with h1
+        · exact h1
+        · exact le_rfl
+      have hmpos : 0 < mjuMax minval (ellS ft mu) := lt_of_lt_of_le hpos hmx
+      rw [div_mul_eq_mul_div, div_le_iff₀ hmpos]
+      exact mul_le_mul_of_nonneg_left hmx hn
+    · apply div_nonneg (mul_self_nonneg _)
+      rw [mjuMax_real]; split_ifs with h1
+      · rw [minval_real]; positivity
+      · exact ellS_nonneg ft mu
+  · exact not_lt.mp h
+
+/-- output of the elliptic `projectCone`: non-negative normal force that bounds the friction-weighted
+    tangential norm -/
+theorem projectCone_elliptic_in (f0 : ℝ) (ft mu : List ℝ) :
+    ∃ g0 gt, projectCone (f0 :: ft) mu true = g0 :: gt ∧ 0 ≤ g0 ∧ ellS gt mu ≤ g0 * g0 ∧
+      gt.length = ft.length := by
+  unfold projectCone
+  simp only [if_true, r_lt, zero_real]
+  split_ifs with h
+  · exact ⟨0, ft.map (fun _ => 0), rfl, le_rfl, by rw [ellS_zeros]; simp, by simp⟩
+  · refine ⟨f0, projectEllipsoid ft f0 mu true, rfl, not_lt.mp h, projectEllipsoid_in ft f0 mu, ?_⟩
+    rw [projectEllipsoid_real]; split_ifs <;> simp
+
+theorem projectCone_scalar (f0 : ℝ) (ft mu : List ℝ) :
+    projectCone (f0 :: ft) mu false = (if f0 < 0 then 0 else f0) :: ft := by
+  unfold projectCone
+  simp only [r_lt, zero_real]
+  rfl
+
+section zonesZ
+variable {n : ℕ} (D0 mu : ℝ) (D w : Fin n → ℝ)
+
+/-- the three cost formulas of the code, irrespective of the zone test -/
+noncomputable def costZ (z : Zone) (j0 : ℝ) (jar : Fin n → ℝ) : ℝ :=
+  match z with
+  | Zone.top => 0
+  | Zone.bottom => 1 / 2 * D0 * j0 * j0 + ∑ i, 1 / 2 * D i * jar i * jar i
+  | Zone.middle => 1 / 2 * ellDm D0 mu * (j0 * mu - mu * TT w jar) * (j0 * mu - mu * TT w jar)
+
+noncomputable def forceNZ (z : Zone) (j0 : ℝ) (jar : Fin n → ℝ) : ℝ :=
+  match z with
+  | Zone.top => 0
+  | Zone.bottom => -D0 * j0
+  | Zone.middle => -ellDm D0 mu * (j0 * mu - mu * TT w jar) * mu
+
+noncomputable def forceTZ (z : Zone) (j0 : ℝ) (jar : Fin n → ℝ) (i : Fin n) : ℝ :=
+  match z with
+  | Zone.top => 0
+  | Zone.bottom => -D i * jar i
+  | Zone.middle => -(forceNZ D0 mu w Zone.middle j0 jar) / TT w jar * (jar i * w i) * w i
+
+theorem blkCost_eq_costZ (j0 : ℝ) (jar : Fin n → ℝ) :
+    blkCost D0 mu D w j0 jar = costZ D0 mu D w (blkZone mu w j0 jar) j0 jar := by
+  unfold blkCost costZ; cases blkZone mu w j0 jar <;> rfl
+theorem blkForceN_eq_forceNZ (j0 : ℝ) (jar : Fin n → ℝ) :
+    blkForceN D0 mu w j0 jar = forceNZ D0 mu w (blkZone mu w j0 jar) j0 jar := by
+  unfold blkForceN forceNZ; cases blkZone mu w j0 jar <;> rfl
+theorem blkForceT_eq_forceTZ (j0 : ℝ) (jar : Fin n → ℝ) (i : Fin n) :
+    blkForceT D0 mu D w j0 jar i = forceTZ D0 mu D w (blkZone mu w j0 jar) j0 jar i := by
+  unfold blkForceT forceTZ blkForceN forceNZ
+  cases h : blkZone mu w j0 jar <;> simp
+
+variable {D0 mu D w}
+
+/-- on the top/middle boundary `N = mu T` the middle-zone formulas give zero cost and zero force -/
+theorem zones_agree_top (j0 : ℝ) (jar : Fin n → ℝ) (hb : j0 * mu = mu * TT w jar) :
+    costZ D0 mu D w Zone.middle j0 jar = costZ D0 mu D w Zone.top j0 jar ∧
+    forceNZ D0 mu w Zone.middle j0 jar = forceNZ D0 mu w Zone.top j0 jar ∧
+    ∀ i, forceTZ D0 mu D w Zone.middle j0 jar i = forceTZ D0 mu D w Zone.top j0 jar i := by
+  unfold costZ forceTZ forceNZ
+  simp only [hb, sub_self, mul_zero, zero_mul, neg_zero, zero_div, and_self, implies_true]
+
+/-- on the middle/bottom boundary `mu N + T = 0` the middle-zone and bottom-zone formulas agree
+    (under the impedance relation) -/
+theorem zones_agree_bottom (hmu : 0 < mu) (hrel : ∀ i, D i * (mu * mu) = D0 * (w i * w i))
+    (j0 : ℝ) (jar : Fin n → ℝ) (hb : mu * (j0 * mu) + TT w jar = 0) :
+    costZ D0 mu D w Zone.middle j0 jar = costZ D0 mu D w Zone.bottom j0 jar ∧
+    forceNZ D0 mu w Zone.middle j0 jar = forceNZ D0 mu w Zone.bottom j0 jar ∧
+    (0 < TT w jar →
+      ∀ i, forceTZ D0 mu D w Zone.middle j0 jar i = forceTZ D0 mu D w Zone.bottom j0 jar i) := by
+  have hne : mu ≠ 0 := hmu.ne'
+  have hne2 : (1 + mu * mu) ≠ 0 := by positivity
+  have hT : TT w jar = -(mu * (j0 * mu)) := by linarith
+  have hs := rel_sum hrel jar
+  have hTT := TT_sq w jar
+  refine ⟨?_, ?_, ?_⟩
+  · unfold costZ
+    have e : (∑ i, 1 / 2 * D i * jar i * jar i) = 1 / 2 * D0 * SS w jar / (mu * mu) := by
+      rw [eq_div_iff (mul_ne_zero hne hne)]; exact hs
+    simp only []
+    rw [e, ← hTT, hT, ellDm_real]
+    field_simp
+    ring
+  · unfold forceNZ
+    simp only []
+    rw [hT, ellDm_real]
+    field_simp
+    ring
+  · intro hpos i
+    unfold forceTZ forceNZ
+    simp only []
+    have e : D i = D0 * (w i * w i) / (mu * mu) := by
+      rw [eq_div_iff (mul_ne_zero hne hne)]; exact hrel i
+    have hj : j0 * mu = -(TT w jar) / mu := by
+      rw [eq_div_iff hne]; linarith
+    rw [e, hj, ellDm_real]
+    have := hpos.ne'
+    field_simp
+    ring
+
+end zonesZ
+
+/-! ### the relation between the regularisers that `mj_makeImpedance` establishes -/
+/-- transcription of the three assignments of `mj_makeImpedance` for an elliptic contact:
+    `R[i+1] = R[i]/impratio`, `mu = friction[0]*sqrt(R[i+1]/R[i])`,
+    `R[i+j+1] = R[i+1]*friction[0]^2/friction[j]^2`, and `D = 1/R`.  Result: the relation
+    `D_j mu² = D_0 friction_{j-1}²` for the first and for every further friction row. -/
+theorem impedance_rel (R0 imp f0 fj : ℝ) (hR0 : 0 < R0) (himp : 0 < imp) (hf0 : 0 < f0) (hfj : 0 < fj) :
+    let R1 := R0 / imp
+    let mu := f0 * Real.sqrt (R1 / R0)
+    let Rj := R1 * f0 * f0 / (fj * fj)
+    1 / R1 * (mu * mu) = 1 / R0 * (f0 * f0) ∧ 1 / Rj * (mu * mu) = 1 / R0 * (fj * fj) := by
+  intro R1 mu Rj
+  have hR1 : 0 < R1 := div_pos hR0 himp
+  have hq : 0 ≤ R1 / R0 := (div_pos hR1 hR0).le
+  have hmu : mu * mu = f0 * f0 * (R1 / R0) := by
+    show f0 * Real.sqrt (R1 / R0) * (f0 * Real.sqrt (R1 / R0)) = _
+    have := Real.mul_self_sqrt hq
+    calc f0 * Real.sqrt (R1 / R0) * (f0 * Real.sqrt (R1 / R0))
+        = f0 * f0 * (Real.sqrt (R1 / R0) * Real.sqrt (R1 / R0)) := by ring
+      _ = _ := by rw [this]
+  have h1 := hR1.ne'
+  have h0 := hR0.ne'
+  have h2 := hf0.ne'
+  have h3 := hfj.ne'
+  constructor
+  · rw [hmu]; field_simp
+  · rw [hmu]; show 1 / (R1 * f0 * f0 / (fj * fj)) * _ = _
+    field_simp
+
+/-- every list of tangential rows is `tsOf` of its coordinate functions -/
+theorem tsOf_getElem (ts : List (TRow ℝ)) :
+    tsOf (fun i : Fin ts.length => ts[i].D) (fun i => ts[i].w) (fun i => ts[i].jar) = ts := by
+  unfold tsOf
+  exact List.ofFn_getElem
+
+
+section st
+variable {n : ℕ} (D0 mu : ℝ) (D w : Fin n → ℝ)
+
+theorem ellBlock_state (j0 : ℝ) (jar : Fin n → ℝ) :
+    (ellBlock D0 j0 mu (tsOf D w jar)).state =
+      match blkZone mu w j0 jar with
+      | Zone.top => stSatisfied | Zone.bottom => stQuadratic | Zone.middle => stCone := by
+  unfold ellBlock blkZone
+  simp only [norm_tsOf, r_mul]
+  cases ellZone mu (j0 * mu) (TT w jar) <;> rfl
+
+theorem ellBlock_state_cone_iff (j0 : ℝ) (jar : Fin n → ℝ) :
+    (ellBlock D0 j0 mu (tsOf D w jar)).state = stCone ↔ blkZone mu w j0 jar = Zone.middle := by
+  rw [ellBlock_state]
+  cases blkZone mu w j0 jar <;> simp [stSatisfied, stQuadratic, stCone]
+
+theorem hessIdx_tsOf (jar : Fin n → ℝ) :
+    hessIdx (tsOf D w jar) = none :: List.ofFn (fun k => hIdxT w jar k) := by
+  unfold hessIdx tsOf hIdxT
+  congr 1
+  apply List.ext_getElem
+  · simp
+  · intro i h1 h2
+    simp [r_mul]
+
+theorem ellBlock_hess (j0 : ℝ) (jar : Fin n → ℝ) (hz : blkZone mu w j0 jar = Zone.middle) :
+    (ellBlock D0 j0 mu (tsOf D w jar)).hess =
+      some ((none :: List.ofFn (fun k => hIdxT w jar k)).flatMap (fun a =>
+        (none :: List.ofFn (fun k => hIdxT w jar k)).map (fun b => blkHess D0 mu w j0 jar a b))) := by
+  unfold blkZone at hz
+  unfold ellBlock
+  simp only [norm_tsOf, r_mul]
+  rw [hz]
+  simp only [coneHess, hessIdx_tsOf, blkHess]
+
+/-- in the middle zone the force is on the cone surface (no relation between the `D` needed) -/
+theorem blk_middle_on_surface (hmu : 0 < mu) (hD0 : 0 ≤ D0) (hw : ∀ i, 0 < w i)
+    (j0 : ℝ) (jar : Fin n → ℝ) (hz : blkZone mu w j0 jar = Zone.middle) :
+    Real.sqrt (∑ i, (blkForceT D0 mu D w j0 jar i / w i) ^ 2) = blkForceN D0 mu w j0 jar := by
+  obtain ⟨_, _, hT⟩ := middle_pos hmu hz
+  have hN := blkForceN_nonneg (w := w) hmu hD0 j0 jar
+  have e : ∑ i, (blkForceT D0 mu D w j0 jar i / w i) ^ 2 = (blkForceN D0 mu w j0 jar) ^ 2 := by
+    have hTT := TT_sq w jar
+    have : ∀ i, (blkForceT D0 mu D w j0 jar i / w i) ^ 2 =
+        (blkForceN D0 mu w j0 jar) ^ 2 / (TT w jar * TT w jar) * (jar i * w i) ^ 2 := by
+      intro i
+      rw [blkForceT_middle hz, ← blkForceN_middle hz]
+      have := (hw i).ne'
+      have := hT.ne'
+      field_simp
+    simp only [this]
+    rw [← Finset.mul_sum, hTT]
+    have hS : SS w jar ≠ 0 := by rw [← hTT]; positivity
+    show _ / SS w jar * SS w jar = _
+    rw [div_mul_cancel₀ _ hS]
+  rw [e, Real.sqrt_sq hN]
+
+end st
+
+/-! ### the update is a concatenation of independent blocks -/
+section parse
+variable {α : Type} [MjNum α]
+
+/-- a maximal group of rows that `mj_constraintUpdate_impl` treats together -/
+inductive Block (α : Type) where
+  | eq (D jar : α)
+  | fric (D R floss jar : α)
+  | nonneg (D jar : α)
+  | cone (D0 jar0 mu : α) (ts : List (TRow α)) (dim : Nat)
+
+def Block.terms : Block α → List α
+  | .eq D jar => (eqRow D jar).terms
+  | .fric D R fl jar => (fricRow D R fl jar).terms
+  | .nonneg D jar => (nonnegRow D jar).terms
+  | .cone D0 j0 mu ts _ => (ellBlock D0 j0 mu ts).terms
+
+def Block.force : Block α → List α
+  | .eq D jar => [(eqRow D jar).force]
+  | .fric D R fl jar => [(fricRow D R fl jar).force]
+  | .nonneg D jar => [(nonnegRow D jar).force]
+  | .cone D0 j0 mu ts _ => (ellBlock D0 j0 mu ts).force
+
+def Block.states : Block α → List Nat
+  | .eq D jar => [(eqRow D jar).state]
+  | .fric D R fl jar => [(fricRow D R fl jar).state]
+  | .nonneg D jar => [(nonnegRow D jar).state]
+  | .cone D0 j0 mu ts dim => List.replicate dim (ellBlock D0 j0 mu ts).state
+
+/-- how the row loop groups the rows `i, i+1, …` into blocks (`none` exactly when `go` refuses) -/
+def parse (ne nf : Nat) (cons : List (Contact α)) : (i : Nat) → (rows : List (Row α)) → Option (List (Block α))
+  | _, [] => some []
+  | i, r :: rest =>
+    if i < ne then (parse ne nf cons (i + 1) rest).map (Block.eq r.D r.jar :: ·)
+    else if i < ne + nf then (parse ne nf cons (i + 1) rest).map (Block.fric r.D r.R r.floss r.jar :: ·)
+    else if r.type ≠ cnstrElliptic then (parse ne nf cons (i + 1) rest).map (Block.nonneg r.D r.jar :: ·)
+    else
+      match cons[r.id]? with
+      | none => none
+      | some c =>
+        if c.dim = 0 ∨ 6 < c.dim ∨ rest.length < c.dim - 1 ∨ c.friction.length < c.dim - 1 then none
+        else
+          (parse ne nf cons (i + c.dim) (rest.drop (c.dim - 1))).map
+            (Block.cone r.D r.jar c.mu
+              (List.zipWith (fun (b : Row α) f => (⟨b.D, b.jar, f⟩ : TRow α))
+                (rest.take (c.dim - 1)) (c.friction.take (c.dim - 1))) c.dim :: ·)
+termination_by _ rows => rows.length
+decreasing_by
+  all_goals simp only [List.length_cons, List.length_drop]
+  all_goals omega
+
+theorem addTerms_append (s : α) (a b : List α) : addTerms s (a ++ b) = addTerms (addTerms s a) b := by
+  unfold addTerms; rw [List.foldl_append]
+
+theorem go_eq_parse (ne nf : Nat) (flgH : Bool) (cons : List (Contact α)) (i : Nat) (rows : List (Row α))
+    (s : α) (frev : List α) (srev : List Nat) (hs : List (Option (List α))) :
+    match parse ne nf cons i rows with
+    | none => go ne nf flgH cons i rows s frev srev hs = none
+    | some bs => ∃ hs', go ne nf flgH cons i rows s frev srev hs =
+        some ⟨addTerms s (bs.flatMap Block.terms), frev.reverse ++ bs.flatMap Block.force,
+              srev.reverse ++ bs.flatMap Block.states, hs'⟩ := by
+  fun_induction go ne nf flgH cons i rows s frev srev hs with
+  | case1 i s frev srev hs =>
+    simp [parse, addTerms]
+  | case2 i r rest s frev srev hs h o ih =>
+    rw [parse, if_pos h]
+    cases hp : parse ne nf cons (i + 1) rest with
+    | none => rw [hp] at ih; simpa using ih
+    | some bs =>
+      rw [hp] at ih
+      obtain ⟨hs', ih⟩ := ih
+      refine ⟨hs', ?_⟩
+      simp only [List.flatMap_cons, Block.terms, Block.force, Block.states]
+      rw [ih, addTerms_append]
+      simp [o]
+  | case3 i r rest s frev srev hs h1 h2 o ih =>
+    rw [parse, if_neg h1, if_pos h2]
+    cases hp : parse ne nf cons (i + 1) rest with
+    | none => rw [hp] at ih; simpa using ih
+    | some bs =>
+      rw [hp] at ih
+      obtain ⟨hs', ih⟩ := ih
+      refine ⟨hs', ?_⟩
+      simp only [List.flatMap_cons, Block.terms, Block.force, Block.states]
+      rw [ih, addTerms_append]
+      simp [o]
+  | case4 i r rest s frev srev hs h1 h2 h3 o ih =>
+    rw [parse, if_neg h1, if_neg h2, if_pos h3]
+    cases hp : parse ne nf cons (i + 1) rest with
+    | none => rw [hp] at ih; simpa using ih
+    | some bs =>
+      rw [hp] at ih
+      obtain ⟨hs', ih⟩ := ih
+      refine ⟨hs', ?_⟩
+      simp only [List.flatMap_cons, Block.terms, Block.force, Block.states]
+      rw [ih, addTerms_append]
+      simp [o]
+  | case5 i r rest s frev srev hs h1 h2 h3 hc =>
+    rw [parse, if_neg h1, if_neg h2, if_neg h3, hc]
+  | case6 i r rest s frev srev hs h1 h2 h3 c hc hbad =>
+    rw [parse, if_neg h1, if_neg h2, if_neg h3, hc]
+    simp only [if_pos hbad]
+  | case7 i r rest s frev srev hs h1 h2 h3 c hc hok ts o hs' ih =>
+    rw [parse, if_neg h1, if_neg h2, if_neg h3, hc]
+    simp only [if_neg hok]
+    cases hp : parse ne nf cons (i + c.dim) (rest.drop (c.dim - 1)) with
+    | none => rw [hp] at ih; simpa using ih
+    | some bs =>
+      rw [hp] at ih
+      obtain ⟨hs'', ih⟩ := ih
+      refine ⟨hs'', ?_⟩
+      simp only [List.flatMap_cons, Block.terms, Block.force, Block.states]
+      rw [ih, addTerms_append]
+      simp [o, ts]
+
+end parse
+
+theorem sum_flatMap_real {β : Type} (bs : List β) (f : β → List ℝ) :
+    (bs.flatMap f).sum = (bs.map (fun b => (f b).sum)).sum := by
+  induction bs with
+  | nil => simp
+  | cons b bs ih => simp only [List.flatMap_cons, List.sum_append, List.map_cons, List.sum_cons, ih]
+
+/-- cost contributed by a block -/
+noncomputable def Block.cost (b : Block ℝ) : ℝ := b.terms.sum
+
+/-- `mj_constraintUpdate_impl` on ℝ: the rows split into blocks, the returned cost is the sum of the
+    block costs and the returned force / state vectors are the concatenations of the block outputs;
+    each block output depends on the residuals of its own rows only -/
+theorem update_decomposes (ne nf : Nat) (flgH : Bool) (rows : List (Row ℝ)) (cons : List (Contact ℝ))
+    (o : Out ℝ) (h : update ne nf flgH rows cons = some o) :
+    ∃ bs, parse ne nf cons 0 rows = some bs ∧ o.cost = (bs.map Block.cost).sum ∧
+      o.force = bs.flatMap Block.force ∧ o.state = bs.flatMap Block.states := by
+  unfold update at h
+  have := go_eq_parse ne nf flgH cons 0 rows (zero : ℝ) [] [] (cons.map (fun _ => none))
+  cases hp : parse ne nf cons 0 rows with
+  | none => rw [hp] at this; rw [this] at h; exact absurd h (by simp)
+  | some bs =>
+    rw [hp] at this
+    obtain ⟨hs', hgo⟩ := this
+    rw [hgo] at h
+    have ho : o = _ := (Option.some.inj h).symm
+    refine ⟨bs, rfl, ?_, ?_, ?_⟩
+    · rw [ho]; simp only [addTerms_real, zero_real, zero_add, sum_flatMap_real]; rfl
+    · rw [ho]; simp
+    · rw [ho]; simp
+
+/-- parameter ranges under which a block's forces are admissible -/
+def Block.WF : Block ℝ → Prop
+  | .eq _ _ => True
+  | .fric D R fl _ => 0 ≤ D ∧ D * R = 1 ∧ 0 ≤ fl
+  | .nonneg D _ => 0 ≤ D
+  | .cone D0 _ mu ts _ => 0 ≤ D0 ∧ 0 < mu ∧ ∀ t ∈ ts, 0 < t.w ∧ t.D * (mu * mu) = D0 * (t.w * t.w)
+
+/-- the admissible set of a block's forces -/
+def Block.Admissible : Block ℝ → Prop
+  | .eq _ _ => True
+  | .fric D R fl jar => |(fricRow D R fl jar).force| ≤ fl
+  | .nonneg D jar => 0 ≤ (nonnegRow D jar).force
+  | .cone D0 j0 mu ts _ =>
+      ∃ (fN : ℝ) (fT : Fin ts.length → ℝ), (ellBlock D0 j0 mu ts).force = fN :: List.ofFn fT ∧
+        0 ≤ fN ∧ Real.sqrt (∑ i, (fT i / ts[i].w) ^ 2) ≤ fN
+
+theorem fricRow_force_abs_le {D R fl : ℝ} (hD : 0 ≤ D) (hDR : D * R = 1) (hfl : 0 ≤ fl) (x : ℝ) :
+    |(fricRow D R fl x).force| ≤ fl := by
+  have hR := R_pos_of hD hDR
+  have hb : 0 ≤ R * fl := mul_nonneg hR.le hfl
+  rw [fricRow_force_eq hDR, abs_neg, abs_mul, abs_of_nonneg hD]
+  have := huber1'_abs_le hb x
+  calc D * |huber1' (R * fl) x| ≤ D * (R * fl) := mul_le_mul_of_nonneg_left this hD
+    _ = fl := by rw [← mul_assoc, hDR, one_mul]
+
+theorem nonnegRow_force_nonneg {D : ℝ} (hD : 0 ≤ D) (x : ℝ) : 0 ≤ (nonnegRow D x).force := by
+  rw [nonnegRow_force_eq]
+  have := q1'_nonpos x
+  have : D * q1' x ≤ 0 := mul_nonpos_of_nonneg_of_nonpos hD this
+  linarith
+
+theorem Block.admissible_of_WF (b : Block ℝ) (h : b.WF) : b.Admissible := by
+  cases b with
+  | eq D jar => trivial
+  | fric D R fl jar => exact fricRow_force_abs_le h.1 h.2.1 h.2.2 jar
+  | nonneg D jar => exact nonnegRow_force_nonneg h jar
+  | cone D0 j0 mu ts dim =>
+    obtain ⟨hD0, hmu, hts⟩ := h
+    unfold Block.Admissible
+    have hts' := tsOf_getElem ts
+    refine ⟨blkForceN D0 mu (fun i : Fin ts.length => ts[i].w) j0 (fun i => ts[i].jar),
+      blkForceT D0 mu (fun i : Fin ts.length => ts[i].D) (fun i => ts[i].w) j0 (fun i => ts[i].jar), ?_, ?_, ?_⟩
+    · have := ellBlock_force D0 mu (fun i : Fin ts.length => ts[i].D) (fun i => ts[i].w) j0 (fun i => ts[i].jar)
+      rw [hts'] at this; exact this
+    · exact blkForceN_nonneg hmu hD0 _ _
+    · exact blk_in_cone hmu hD0 (fun i => (hts ts[i] (List.getElem_mem _)).1)
+        (fun i => (hts ts[i] (List.getElem_mem _)).2) _ _
 
 end MjProof.Constraint
